@@ -116,6 +116,16 @@ def main():
         good = [s for s in seqs if cgr_spec(s.encode('utf-8'), size) is not None][:50]
         cases += 1
         if [[tuple(p) for p in r] for r in cg.vectorise_batch(good)] != [cgr_spec(s.encode('utf-8'), size) for s in good]: fail(what='CgrComputer.vectorise_batch', size=size)
+    # counts beyond 2^24 (where a single-precision accumulator stops counting): thorough tier only (17 M bases)
+    if thorough:
+        n = 17_000_000
+        big = 'A' * n
+        for norm in (False, True):
+            cases += 1
+            one = comps[1].vectorise_one(big, norm)
+            want = [1.0, 0.0] if norm else [float(n), 0.0]
+            if one != want: fail(what='vectorise_one on a long homopolymer', seq="'A' * %d" % n, k=1, norm=norm, expected=want, actual=one)
+        del big
     # iterators stay valid after the Python string is released
     it = kt.KmerGenerator(''.join(['ACGT'] * 50), 3)
     import gc; gc.collect()
